@@ -47,6 +47,11 @@ CHECKS = {
    text="TLC enumerates every program over the 20 command letters up to the depth bound (plus simulated longer ones) with the machine invariants and the spelling-equivalence theorems checked in the model; each terminal behaviour is rendered in several lexical spellings and must parse to exactly the model's segments; every string of the lexer DFA is fed to the real tokenizer; per-group events of the real parser on random long programs and on the repository's own d-strings are accepted by the trace spec.",
    note="Trusted: TLC, the reading of the SVG 1.1/2 path grammar encoded in PathSem/PathLex (no trailing-dot numbers, no null arcs), Python float()/Fraction for number values. Arguments are small integers; float rounding of relative offsets is not modelled.",
    ref="4 (C02), 3.1, 3.2"),
+ 'C17': dict(
+   technique="TLA+ state machine of the SVG document tree and of the explicit-stack flattening traversal (SvgDoc.tla over AffineOps) model-checked with TLC; every tree rendered to SVG text and read through Document, paths_from_group, svg2paths and SaxDocument",
+   text="TLC checks StackEqualsRecursive and PartialOK (the traversal's matrices = product of ancestor transform lists, outermost first), TreeOK and ShapesClosed for every tree up to the node bound; every tree of root + 2 nodes (8 shape kinds x 10 transform lists x both nestings) and simulated trees of up to 7-9 nodes are rendered with ids and each API's result is compared per element id with the model's shape geometry (SVG 1.1 ch. 9) mapped by the model's matrix: Document.paths, paths_from_group for every group (recursive / not, by element / by nested names), svg2paths (identity, by design), SaxDocument.flatten_all_paths.",
+   note="Trusted: TLC, xml parsing, the Arc class for reference arcs (C04). Integer attributes, invertible transform lists only; rx/ry never exceed half the rect; circle/ellipse compared as a closed arc outline through the four quadrant points.",
+   ref="4 (C17), 3.12"),
  'C19': dict(
    technique="TLA+ exact lattice algebra (Bezier.tla, degrees 0..8) and state machines of the root de-duplication loop (Roots.tla) and of the L'Hopital recursion (RatLimit.tla) model-checked with TLC; every case replayed into the real helpers in exact Fraction arithmetic / through a numpy.roots proxy; recorded numpy orders validated by Roots_Trace.tla",
    text="TLC checks Bernstein = de Casteljau = Horner, the basis-change round trip, derivative = polynomial derivative and the split re-parameterisation on unisolvent grids for degrees 0..8, SimpleOnce/ClusterRepresented/OnePerCluster for every set partition x kind vector of up to 5 (quick) / 6 (thorough) roots, and the correctness of the limit recursion for all integer polynomial pairs of degree <= 2 at four points; each case is replayed: bezier_point, bezier2polynomial, polynomial2bezier, split_bezier, halve_bezier with Fractions (exact equality), polyroots/polyroots01 with numpy.roots returning exactly the model's ordered list, rational_limit on every (f,g,t0); 300/3000 real polynomials with prescribed root sets are validated as traces.",
